@@ -13,7 +13,7 @@ WORD = re.compile(r"^[A-Za-z][A-Za-z0-9_]*$")
 
 OPS_WS = ("W1", "W3", "WT", "W0", "NL", "NLI", "CE", "CD", "WFF", "WNB")
 OPS_ADJ = ("WI",)
-OPS_BOUNDARY = ("CO", "BL", "J", "CEE")
+OPS_BOUNDARY = ("CO", "BL", "J", "CEE", "CEG")
 OPS_WORD = ("UP", "LO", "CAP")
 OPS_FILE = ("ALLUP", "ALLLO")
 OPS_LINE = ("TW", "IND0", "IND3")
@@ -136,6 +136,12 @@ class SeedInfo:
         for i in self.ce_end:
             if "CEE" in kinds:
                 out.append(("CEE", i, 0))
+            if "CEG" in kinds:
+                # comment glued to the last code token (no blank in front of `--`): admitted only if the code tokens of the line are untouched
+                old = _nonblank(self.lines[i])
+                new = _nonblank(self.lines[i].rstrip(" \t") + "-- c1")
+                if new[: len(old)] == old and new[len(old) : len(old) + 1] == ["--"]:
+                    out.append(("CEG", i, 0))
             if "TW" in kinds:
                 out.append(("TW", i, 0))
         for i, w in self.indent:
@@ -239,6 +245,8 @@ class SeedInfo:
                 lines[ln : ln + 2] = [L.rstrip(" \t") + " " + lines[ln + 1].lstrip(" \t")]
             elif k == "CEE":
                 lines[ln] = L.rstrip(" \t") + f" -- {tag}"
+            elif k == "CEG":
+                lines[ln] = L.rstrip(" \t") + f"-- {tag}"
             elif k == "TW":
                 lines[ln] = L + "  "
             elif k == "IND0":
